@@ -166,6 +166,8 @@ def s_uout(b, t):
         ms = B.bcast_variants(rng, tv.shape) if rng.random() < 0.5 else tv.shape
         m = np.array([rng.random() < 0.55 for _ in range(int(np.prod(ms, dtype=int)))], dtype=bool).reshape(ms)
         kw["where"] = B.tensorize_index(b, enc_arr(m), 0.25)    # the mask sometimes as a (constant, boolean) tensor
+        if rng.random() < 0.12:
+            kw["where"] = rng.choice([False, False, True])     # the plain Python scalars: nothing / everything is written
     if rng.random() < 0.5:
         fn = rng.choice(UFUNC1_OUT)
         a, refs = value_for(b, tv.shape, "f", positive=fn in ("sqrt", "log"))
